@@ -611,6 +611,12 @@ func genRT(out *vc.Out, r *vc.Rand, thorough bool) {
 		emitCap(out, 0x22, false, sz)
 		emitCap(out, 0x22, true, sz)
 	}
+	// large bodies between 1 MiB and the cap, aligned and not aligned to 4 KiB (pooled buffers round their
+	// capacity up), each followed by a trailer that arrives coalesced with the tail of the body
+	for _, sz := range []int{1<<20 + 1, 1<<20 + 4095, 1<<20 + 4096, 1<<20 + 4097, 3<<20 + 5, 2 << 20} {
+		emitCap(out, 0x22, false, sz)
+	}
+	emitCap(out, 0x22, true, 5<<20+123)
 	if thorough {
 		for _, ty := range []int{0x01, 0x20, 0x24, 0x3F} {
 			emitCap(out, ty, true, capSz)
